@@ -349,16 +349,21 @@ func findTagAtPosition(tags []ast.Tag, pos protocol.Position) *hoverElement {
 			}
 		}
 
-		// Cursor is on tag value (after the colon)
+		// Cursor is after the colon. The value ends where the tag ends; blanks between
+		// the colon and the value ("area: north") belong to neither.
+		valueStart := ast.Position{
+			Line:   tag.Range.Start.Line,
+			Column: tag.Range.End.Column - lsputil.UTF16Len(tag.Value),
+			Offset: tag.Range.End.Offset - len(tag.Value),
+		}
+		if cursorCol < valueStart.Column {
+			return nil
+		}
 		return &hoverElement{
 			context: HoverTagValue,
 			rng: ast.Range{
-				Start: ast.Position{
-					Line:   tag.Range.Start.Line,
-					Column: colonCol + 1,
-					Offset: tag.Range.Start.Offset + len(tag.Name) + 1,
-				},
-				End: tag.Range.End,
+				Start: valueStart,
+				End:   tag.Range.End,
 			},
 			tagName:  tag.Name,
 			tagValue: tag.Value,
